@@ -68,6 +68,12 @@ CHECKS = {
         "Every string up to L over the literal alphabet, alone and followed by a blank or ';', every integer body x suffix spelling, float body x suffix, escape body x prefix is classified by the reference (must-accept / must-reject / don't-care) and lexed by the real lexer; every must-accept literal also goes through the parser to check Constant.value/type.",
         "Bounded by string length; the lenient zone pycparser documents (extra escape letters, decimal escapes, pp-numbers split into two tokens) is don't-care and never raises an alarm.",
         "DESIGN.md §4.2, §5 C10", "lexref"),
+    "C11": (
+        "model_checking",
+        "exhaustive enumeration of every pool program x 3 layouts x a linemarker in every gap, rendered by a layout model that records every token's position and logical file/line; every AST coordinate and every injected-illegal-character error location replayed on the real parser and checked against that table",
+        "For every distinct token sequence of the bounded pool, in three base layouts and with a file+line changing linemarker inserted at every gap, every coordinate of the AST must be the start of a real token under the logical file/line in force there (exact spelling token for identifiers, constants, declared names, enumerators, labels), listed node classes must carry a coordinate, and every single illegal-character injection must be reported at exactly its logical position.",
+        "Bounded pool (programs <= 30/60 tokens), single linemarker per variant; 'inside the construct' is checked only as 'a real token with the right logical position' for model-free programs.",
+        "DESIGN.md §4.3, §5 C11", "lexref"),
     "C12": (
         "model_checking",
         "exhaustive breadth-first exploration of all operation histories <= n on real CParser / CLexer / CGenerator objects, each history replayed on a fresh object and compared call-by-call with fresh-instance results; canonical object states counted",
@@ -92,6 +98,12 @@ CHECKS = {
         "Every AST of the bounded pool and every hand-built constant/configuration is rebuilt through repr/eval, pickle and deepcopy and compared structurally (with coordinates for pickle/deepcopy), by generated text, by node identity and under mutation of the copy.",
         "Bounded pool; constant bodies <= 3 characters.",
         "DESIGN.md §5 C15", "sweep"),
+    "C17": (
+        "exploration",
+        "exhaustive sweep of every pool program x every whole-layout variant and every single-gap deviation (4 separators, 3 directive forms; pairs in thorough), and of every expression-model tree x every single redundant parenthesis pair",
+        "Every distinct token sequence of the bounded pool is re-laid out in every single-gap way (newline, tab, blanks, mixed, linemarker, #line with and without file) and in whole-layout variants; every expression-model tree gets one redundant pair of parentheses at every non-comma position. Canonical AST (no coordinates) and regenerated text must equal the default layout's.",
+        "Bounded pool (programs <= 40/80 tokens plus small corpus files); pairs of deviations only in the thorough tier.",
+        "DESIGN.md §5 C17", "lexref"),
     "C18": (
         "model_checking",
         "TokEx invariant 'accepted => brackets balanced' on every explored token string (full vocabulary and a bracket-heavy vocabulary to a deeper bound), plus exhaustive single-bracket mutations and non-token injections of every pool program",
@@ -104,7 +116,7 @@ PENDING = {
 }
 
 ALL = [f"C{i:02d}" for i in range(1, 20)]
-ENABLED = ["C03", "C06", "C07", "C08", "C09", "C10", "C12", "C13", "C14", "C15", "C18"]
+ENABLED = ["C03", "C06", "C07", "C08", "C09", "C10", "C11", "C12", "C13", "C14", "C15", "C17", "C18"]
 
 
 def main():
